@@ -22,6 +22,7 @@ def run(ctx: Ctx) -> Collector:
     c = Collector("R14")
     sites = _create_task_sites(ctx, c)
     _group_waiters(ctx, c)
+    _finally_exits(ctx, c)
     _settled_tasks(ctx, c)
     _reader(ctx, c)
     _world_run(ctx, c)
@@ -96,7 +97,16 @@ def _group_waiters(ctx: Ctx, c: Collector) -> None:
         else:
             m = main[0]
             conc = m.term[0] == "call" and m.term[1] == T.glob("asyncio.gather") and m.term[2] == (("star", tasks),) and not dict(m.term[3]).get("return_exceptions")
-            conc = conc or (m.term[0] == "call" and m.term[1] == T.glob("asyncio.wait") and m.term[2][:1] == (tasks,) and "FIRST_EXCEPTION" in T.show(m.term))
+            via_wait = m.term[0] == "call" and m.term[1] == T.glob("asyncio.wait") and m.term[2][:1] == (tasks,) and "FIRST_EXCEPTION" in T.show(m.term)
+            conc = conc or via_wait
+            if via_wait:
+                # asyncio.wait does not raise: the failed task's exception has to be re-raised from the *finished* tasks
+                res = [e for e in gs.of_kind("call") if e.term[1][0] == "attr" and e.term[1][2] in ("result", "exception")]
+                if not res:
+                    pr.append("asyncio.wait() does not raise the exception of a failed task and nothing re-raises it: a failed simulator goes unnoticed")
+                elif any(len(e.iters) == 1 and T.strip(e.iters[0][2]) == tasks for e in res):
+                    pr.append("the exception is re-raised by asking every task of the group for its result after the others were cancelled: a cancelled task that comes earlier in the list "
+                              "raises CancelledError first, so the error of the failed simulator (e.g. the loop-guard SimulationError) is replaced by a bare CancelledError")
             if not conc:
                 if m.iters:
                     pr.append("the tasks are awaited one after the other: the failure of a later task is only noticed when all earlier tasks have finished "
@@ -306,3 +316,45 @@ def _start_proc(ctx: Ctx, c: Collector) -> None:
 
 from ..report import VIOLATED, DISCHARGED  # noqa: E402
 from ..terms import call  # noqa: E402
+
+
+def _finally_exits(ctx: Ctx, c: Collector) -> None:
+    """A `return`, `break` or `continue` in a `finally` block discards the exception that is propagating
+    through it -- a simulator's error, a lost connection, the CancelledError sent to a runner when another
+    simulator failed: the run goes on as if nothing had happened.  Whole-package sweep over the syntax."""
+    import ast as _ast
+    n = 0
+    hits = []
+    for fi in ctx.prog.all_functions():
+        if isinstance(fi.node, _ast.Lambda):
+            continue
+        for node in _ast.walk(fi.node):
+            if not isinstance(node, _ast.Try) or not node.finalbody:
+                continue
+            if ctx.prog.func_of_node.get(id(node)) not in (None, fi):
+                continue
+            n += 1
+            todo = list(node.finalbody)
+            while todo:
+                x = todo.pop()
+                if isinstance(x, (_ast.FunctionDef, _ast.AsyncFunctionDef, _ast.Lambda, _ast.ClassDef)):
+                    continue
+                if isinstance(x, _ast.Return):
+                    hits.append((fi, x, "return"))
+                elif isinstance(x, (_ast.Break, _ast.Continue)):
+                    hits.append((fi, x, type(x).__name__.lower()))
+                if isinstance(x, (_ast.For, _ast.AsyncFor, _ast.While)):
+                    # break / continue inside a loop of the finally block stay inside it; a return does not
+                    todo.extend(y for y in _ast.walk(x) if isinstance(y, _ast.Return))
+                    continue
+                todo.extend(_ast.iter_child_nodes(x))
+    c.info["finally_blocks"] = n
+    seen = set()
+    for fi, x, what in hits:
+        if (fi.qualname, what) in seen:
+            continue
+        seen.add((fi.qualname, what))
+        c.bad("finally", fi.qualname, f"{what} in a finally block", f"`{what}` at line {x.lineno} inside a finally block discards the exception propagating through it "
+              "(the error of a failed simulator, or the cancellation of this runner when another simulator failed): the run continues and can report success", f"{fi.module.relpath}:{x.lineno}")
+    if not hits:
+        c.ok("finally", "mosaik.*", "no return / break / continue in a finally block", f"{n} finally blocks scanned", "")
